@@ -374,36 +374,36 @@ func TXTMemoryIsDPR(txtAPI hwapi.LowLevelHardwareInterfaces, p *PreSet) (bool, e
 		return false, nil, err
 	}
 
-	var dprBase uint32
-	var dprSize uint32
-	var dprLimit uint32
+	var dprBase uint64
+	var dprSize uint64
+	var dprLimit uint64
 
-	dprSize = uint32(regs.Dpr.Size) * 1024 * 1024
-	dprLimit = uint32(regs.Dpr.Top+1) * 1024 * 1024
+	dprSize = uint64(regs.Dpr.Size) * 1024 * 1024
+	dprLimit = (uint64(regs.Dpr.Top) + 1) * 1024 * 1024
 	dprBase = dprLimit - dprSize
 
 	/* Chapter 5.5.6.1 DMA Protection Memory Region */
 	if dprSize < 3*1024*1024 {
 		return false, fmt.Errorf("DPR region is smaller than 3 MiB"), nil
 	}
-	if dprBase > regs.HeapBase {
+	if dprBase > uint64(regs.HeapBase) {
 		return false, fmt.Errorf("TXT Heap region not covered by DPR region"), nil
 	}
-	if regs.SinitBase > 0 && dprBase > regs.SinitBase {
+	if regs.SinitBase > 0 && dprBase > uint64(regs.SinitBase) {
 		return false, fmt.Errorf("TXT Sinit region not covered by DPR region"), nil
 	}
-	if dprLimit < regs.HeapBase+regs.HeapSize {
+	if dprLimit < uint64(regs.HeapBase)+uint64(regs.HeapSize) {
 		return false, fmt.Errorf("TXT Heap region not covered by DPR region"), nil
 	}
-	if regs.SinitBase > 0 && dprLimit < regs.SinitBase+regs.SinitSize {
+	if regs.SinitBase > 0 && dprLimit < uint64(regs.SinitBase)+uint64(regs.SinitSize) {
 		return false, fmt.Errorf("TXT Sinit region not covered by DPR region"), nil
 	}
 	/* Chapter 5.5.6.3 Intel TXT Heap Memory Region */
-	if dprLimit != regs.HeapBase+regs.HeapSize {
+	if dprLimit != uint64(regs.HeapBase)+uint64(regs.HeapSize) {
 		return false, fmt.Errorf("TXT heap region must end at top of DPR region"), nil
 	}
 	/* Chapter 5.5.6.1 DMA Protection Memory Region */
-	if dprBase > dprLimit-2*1024*1024-regs.HeapSize-regs.SinitSize {
+	if 2*1024*1024+uint64(regs.HeapSize)+uint64(regs.SinitSize) > dprSize {
 		return false, fmt.Errorf("MLE region in DPR region is less than 2 MiB"), nil
 	}
 
